@@ -79,13 +79,15 @@ fn main() {
     std::fs::create_dir_all(&out).unwrap();
     let work = std::path::PathBuf::from("/verif/harness/target/work").join(&prop);
     std::fs::create_dir_all(&work).unwrap();
-    let ctx = Ctx { mode, seed, driver, work };
+    let mut ctx = Ctx { mode, seed, driver, work, group_budget_s: 240 };
     let t0 = std::time::Instant::now();
     let groups = groups_for(&prop, &ctx);
     if groups.is_empty() {
         eprintln!("unknown property {prop}");
         std::process::exit(2);
     }
+    // the whole property: 8 min quick, 45 min thorough (check.py allows the process 3400 s)
+    ctx.group_budget_s = ((if ctx.mode == Mode::Quick { 480 } else { 2700 }) / groups.len() as u64).max(60);
     // corpus of minimised past failures: harness/corpus/<prop>.ops, one line per case
     let corpus: Vec<String> = std::fs::read_to_string(format!("/verif/harness/corpus/{prop}.ops"))
         .unwrap_or_default()
